@@ -543,9 +543,30 @@ pub fn apply(prog: &Program, kind: usize, c: &mut Choices) -> Option<(Program, S
         if kind == 23 && !applied {
             // program-level: recursive type or constant
             if pass == 0 {
-                count = 4;
+                count = 6;
             } else {
-                match target.unwrap_or(0) % 4 {
+                match target.unwrap_or(0) % 6 {
+                    4 | 5 => {
+                        // a constant that reaches itself only through one or two functions
+                        let hops = if target.unwrap_or(0) % 6 == 4 { 1 } else { 2 };
+                        let nf = p.funcs.len();
+                        p.consts.push(ConstDecl { name: "ZCA".into(), ty: Ty::Int(IntTy::I32), init: Expr::Call(nf, vec![]) });
+                        for h in 0..hops {
+                            let tail = if h + 1 < hops {
+                                Expr::Call(nf + h + 1, vec![])
+                            } else {
+                                Expr::Bin(BinOp::Add, Box::new(Expr::Var("ZCA".into())), Box::new(lit(V::i32(1), "1")))
+                            };
+                            p.funcs.push(Func {
+                                kind: FnKind::Fn,
+                                name: format!("zz_cf{h}"),
+                                params: vec![],
+                                ret: Ty::Int(IntTy::I32),
+                                body: Block { stmts: vec![], tail: Some(Box::new(tail)) },
+                            });
+                        }
+                        desc = format!("constant ZCA that depends on itself through {hops} function(s) added");
+                    }
                     3 => {
                         // a generated cycle of 1-3 declarations; every link goes through one of the
                         // forms a type can be mentioned in (directly, optional, list, anonymous record,
